@@ -6,6 +6,8 @@ from contextlib import contextmanager
 from typing import TYPE_CHECKING
 
 from .checkpoint_int import SnapshottingInt
+from .grammar.rule import COMPOUND
+from .grammar.rule import NONATOMIC
 from .grammar.rule import Rule
 from .stack import Stack
 
@@ -185,6 +187,21 @@ class ParserState:
         if start is None and end is None:
             return self.user_stack[:]
         return self.user_stack[slice(start, end)]
+
+    @staticmethod
+    def atomic_children(children: list[Pair]) -> list[Pair]:
+        """Return the pairs that stay visible inside an atomic rule.
+
+        An atomic rule hides its inner pairs, except those produced by nested
+        compound-atomic (`$`) or non-atomic (`!`) rules.
+        """
+        visible: list[Pair] = []
+        for pair in children:
+            if pair.rule.modifier & (COMPOUND | NONATOMIC):
+                visible.append(pair)
+            else:
+                visible.extend(ParserState.atomic_children(pair.children))
+        return visible
 
     @contextmanager
     def atomic_checkpoint(self) -> Iterator[ParserState]:
